@@ -87,6 +87,12 @@ class Run:
         ctx.spec_funcs = R.spec_funcs
         ctx.record_classes_all = set(R.record_classes)
         self.ctx = ctx
+        from .core import RefV as _RefV
+        from .types import ref as _ref
+        import z3 as _z3
+        from .types import Ref as _Ref
+        for gname, gcls in R.ghost_objects.items():
+            ctx.ghost_objects[gname] = _RefV(_z3.Const('ghost_' + gname, _Ref), _ref(gcls), False)
         if hasattr(mod, 'configure'):
             mod.configure(ctx, R)
         self.ex = Executor(ctx)
@@ -129,10 +135,10 @@ class Run:
         return ax
 
     def discharge(self):
-        timeout = 20 if self.tier == 'quick' else 120
+        timeout = 60 if self.tier == 'quick' else 240
         timeout = int(os.environ.get('VERIF_SOLVER_TIMEOUT', timeout))
         ax = self.axioms()
-        self.results = solve.discharge(self.ctx.obligations, ax, timeout=timeout,
+        self.results = solve.discharge(self.ctx.obligations, ax, timeout=timeout, jobs=int(os.environ.get('VERIF_JOBS', 12)),
                                        second_opinion=(self.tier == 'thorough'))
 
 
